@@ -22,7 +22,9 @@ fn exchange(port: u16, host: Option<&str>, target: &str, src: Option<&str>, xff:
                 req.push_str(&format!("Host: {}\r\n", h));
             }
             if let Some(x) = xff {
-                req.push_str(&format!("X-Forwarded-For: {}\r\n", x));
+                // header names are case-insensitive: the spelling varies with the value (proxies send any of these)
+                let spell = ["X-Forwarded-For", "x-forwarded-for", "X-FORWARDED-FOR", "X-forwarded-for"];
+                req.push_str(&format!("{}: {}\r\n", spell[x.bytes().map(|b| b as usize).sum::<usize>() % 4], x));
             }
             if ws {
                 // a WebSocket upgrade request (what a route's `websocket` pass-through reacts to)
